@@ -1177,9 +1177,13 @@ static int mode_levelops(const std::string& what, int cases)
             }
             else if (what == "direct" && l + 1 == L) {
                 emit_level_of("LV", l, v.geo(), v.coef(), gr, g.DirBC_Interior(), none);
-                Vector<double> b = fv;
+                // every third right-hand side is tiny or huge as a whole (the coarse systems of a converged cycle ARE tiny)
+                std::vector<double> fs = f;
+                if (c % 3 == 2) { const double sc = rng.pick(std::vector<double>{1e-170, 1e-200, 1e-250, 1e120}); for (auto& q : fs) q *= sc; }
+                Vector<double> b(n);
+                for (int i = 0; i < gr.nr(); i++) for (int j = 0; j < gr.ntheta(); j++) b[gr.index(i, j)] = fs[(size_t)i * gr.ntheta() + j];
                 lv.directSolveInPlace(b);
-                printf("DS strat=%s threads=%d b=%s x=%s mat=-\n", strat, threads, hexvec(f).c_str(), hexvec(rowmajor(b)).c_str());
+                printf("DS strat=%s threads=%d b=%s x=%s mat=-\n", strat, threads, hexvec(fs).c_str(), hexvec(rowmajor(b)).c_str());
             }
         }
     }
